@@ -22,7 +22,13 @@ def main():
     env.pop("NIPYPE_PYDRA_VERIF", None)
     cmd = ["/venv/bin/python", "-m", "pytest", "-q", "-p", "no:cacheprovider", "--timeout=900",
            "--continue-on-collection-errors", "-n", n, f"--junitxml={junit}", *args]
-    p = subprocess.run(cmd, cwd=tree, env=env, stdout=subprocess.PIPE, stderr=subprocess.STDOUT, text=True)
+    # output goes to a file: with a pipe, orphaned grandchildren (process pools started by tests) that keep the pipe open
+    # make subprocess.run wait for ever after pytest itself has exited
+    fdo, outpath = tempfile.mkstemp(suffix=".out", dir="/dev/shm"); os.close(fdo)
+    with open(outpath, "w") as outf:
+        p = subprocess.run(cmd, cwd=tree, env=env, stdout=outf, stderr=subprocess.STDOUT, stdin=subprocess.DEVNULL)
+    p.stdout = open(outpath, errors="replace").read()
+    os.unlink(outpath)
     passed = set()
     other = {}
     try:
